@@ -101,6 +101,43 @@ def melody_jobs(tier):
     return js
 
 
+def melody_reward_jobs(tier):
+    """a reference with a fractional pitch reward (continuous reference voicing in (0, 1], Bittner & Bosch) against the estimate
+    that an exact copy of its frequencies yields (binary voicing): voicing recall 1, false alarm 0, raw pitch and chroma accuracy 1.
+    (Overall accuracy is not 1 by definition when the reward is fractional and is not asserted.)"""
+    js = []
+    for n in ((1, 2) if tier == 'quick' else (1, 2, 3)):
+        def build(ctx, n=n):
+            v = [ctx.real('v%d' % i) for i in range(n)]
+            c = [ctx.real('c%d' % i) for i in range(n)]
+            some = False
+            for i in range(n):
+                ctx.assume(v[i] >= 0)
+                ctx.assume(v[i] <= 1)
+                ctx.assume(c[i] >= 0)
+                ctx.assume(S._lor(v[i] == 0, c[i] > 0))
+                some = S._lor(some, v[i] > 0)
+            ctx.assume(some)
+            tol = T.posreal(ctx, 'cent_tolerance', 600)
+            return dict(v=S.array(v), c=S.array(c), tol=tol)
+
+        def body(A, inp, n=n):
+            v, c, tol = inp['v'], inp['c'], inp['tol']
+            ev = (v > 0).astype(float)
+            vr, vfa = T.MEL.voicing_measures(v, ev)
+            rpa = T.MEL.raw_pitch_accuracy(v, c, ev, c.copy(), cent_tolerance=tol)
+            rca = T.MEL.raw_chroma_accuracy(v, c, ev.copy(), c.copy(), cent_tolerance=tol)
+            for nm, val in (('VR', vr), ('VFA', vfa), ('RPA', rpa), ('RCA', rca)):
+                A.observe(nm, val)
+            A.require(A.eq(vr, 1), 'melody.voicing_recall(x,x)==1 [fractional reward]')
+            A.require(A.eq(vfa, 0), 'melody.voicing_false_alarm(x,x)==0 [fractional reward]')
+            A.require(A.eq(rpa, 1), 'melody.raw_pitch_accuracy(x,x)==1 [fractional reward]')
+            A.require(A.eq(rca, 1), 'melody.raw_chroma_accuracy(x,x)==1 [fractional reward]')
+        js.append(Job('C02', 'melody.frame_measures[self,%d frames,fractional reference reward]' % n, build, body,
+                      funcs=['melody.voicing_measures', 'melody.raw_pitch_accuracy', 'melody.raw_chroma_accuracy'], bounds=dict(frames=n), exact_floats=False))
+    return js
+
+
 def structure_job(spec, size):
     n = size[0]
 
@@ -335,6 +372,7 @@ def jobs(tier):
     ky.perfect = [1]
     js.append(make_job(ky, 10 if q else len(T.KEY_STRINGS)))
     js += melody_jobs(tier)
+    js += melody_reward_jobs(tier)
     for n in (1, 2):
         js.append(velocity_job(n))
     js.append(velocity_job(1, None))
